@@ -1,11 +1,13 @@
 /- line-protocol oracle: one case per line in, `model<TAB>spec` out. Core Lean only. -/
 import Pangaea.Drv.C11
+import Pangaea.Drv.C10
 
 def dispatch (line : String) : String :=
   let toks := (line.trimAscii.toString.splitOn " ").filter (· ≠ "")
   let r : String × String :=
     match toks with
     | "C11" :: rest => Pangaea.Drv.C11.handle rest
+    | "C10" :: rest => Pangaea.Drv.C10.handle rest
     | _ => ("bad-op", "bad-op")
   r.1 ++ "\t" ++ r.2
 
